@@ -13,6 +13,7 @@ import TLX.Quic.Dissect
 import TLX.Quic.Varint
 import TLX.Quic.Session
 import TLX.MainLoop
+import TLX.Session
 namespace TLX.Props.Translated
 open TLX TLX.PyRt TLX.Lemmas.Translated TLX.Quic.PktNum
 
@@ -188,5 +189,81 @@ theorem matches_session_dgram_eq_model {α : Type} (s : MainLoop.Sess α) (p : M
   all_goals simp_all
 
 example : Gen.Py.matches_session_dgram [10, 0, 0, 2] [10, 0, 0, 1] 5000 443 [10, 0, 0, 1] 443 [10, 0, 0, 2] 5000 = true := by decide
+
+/-! ### tlexport/session.py -/
+
+theorem endpoint_beq (a b : MainLoop.Endpoint) : (a == b) = (decide (a.ip = b.ip) && decide (a.port = b.port)) := by
+  cases a; cases b
+  simp only [BEq.beq, MainLoop.Endpoint.mk.injEq]
+  simp [Bool.decide_and]
+
+/-- `matches_session(packet)` is the model's `Sess.matches` -/
+theorem matches_session_eq_model {α : Type} (s : MainLoop.Sess α) (p : MainLoop.Pkt) :
+    Gen.Py.matches_session p.src.ip p.dst.ip p.src.port p.dst.port s.server.ip s.server.port s.client.ip s.client.port =
+      s.matches p := by
+  unfold Gen.Py.matches_session MainLoop.Sess.matches
+  simp only [endpoint_beq]
+  repeat' split
+  all_goals simp_all
+
+example : Gen.Py.matches_session [10, 0, 0, 1] [10, 0, 0, 2] 443 5000 [10, 0, 0, 1] 443 [10, 0, 0, 2] 5000 = true ∧
+    Gen.Py.matches_session [10, 0, 0, 1] [10, 0, 0, 2] 443 5001 [10, 0, 0, 1] 443 [10, 0, 0, 2] 5000 = false := by decide
+
+/-- `set_client_and_server_ports`: server and client endpoint are the model's `rolesOf`; the MAC addresses and the
+    IPv6 flag (outside `rolesOf`) follow the same choice -/
+theorem set_client_and_server_ports_eq_model (ports : List Int) (p : MainLoop.Pkt) (v6 : Bool) (macSrc macDst : Bytes) :
+    Gen.Py.set_client_and_server_ports ports v6 p.src.ip p.dst.ip p.src.port p.dst.port macSrc macDst =
+      { ipv6 := v6,
+        server_ip := (MainLoop.rolesOf ports p).1.ip, server_port := (MainLoop.rolesOf ports p).1.port,
+        server_mac_addr := if ports.contains (p.src.port : Int) then macSrc else macDst,
+        client_ip := (MainLoop.rolesOf ports p).2.ip, client_port := (MainLoop.rolesOf ports p).2.port,
+        client_mac_addr := if ports.contains (p.src.port : Int) then macDst else macSrc } := by
+  unfold Gen.Py.set_client_and_server_ports MainLoop.rolesOf
+  by_cases h : (p.src.port : Int) ∈ ports <;> simp [h]
+
+example : (Gen.Py.set_client_and_server_ports [443, 44330] false [10, 0, 0, 2] [10, 0, 0, 1] 5000 443 [2] [1]).server_port = 443 ∧
+    (Gen.Py.set_client_and_server_ports [443, 44330] false [10, 0, 0, 1] [10, 0, 0, 2] 443 5000 [1] [2]).server_ip = [10, 0, 0, 1] := by
+  decide
+
+/-- `handle_alert` writes what the model's `alert` writes -/
+theorem handle_alert_eq_model {δ : Type} (s : Session.St δ) (level : UInt8) :
+    Gen.Py.handle_alert level.toNat s.ver s.canDecrypt s.chSeen =
+      { can_decrypt := (Session.alert s level).canDecrypt, client_hello_seen := (Session.alert s level).chSeen } := by
+  unfold Gen.Py.handle_alert Session.alert
+  have h1 : (level.toNat = 1) = (level = 1) := by
+    rw [← UInt8.toNat_inj]; rfl
+  simp only [Bool.and_eq_true, decide_eq_true_eq, h1]
+  split <;> rfl
+
+example : Gen.Py.handle_alert 1 (some .tls12) true true = { can_decrypt := true, client_hello_seen := true } ∧
+    Gen.Py.handle_alert 1 (some .tls13) true true = { can_decrypt := false, client_hello_seen := false } ∧
+    Gen.Py.handle_alert 2 (some .tls12) true true = { can_decrypt := false, client_hello_seen := false } := by decide
+
+/-- `handle_tls_client_hello` writes what the model's `clientHello` writes (`record.binary` is the model's `Rec.body`;
+    the emptied `handshake_13_buffer` is the pair of the model's two per-direction buffers) -/
+theorem handle_tls_client_hello_eq_model {δ : Type} (s : Session.St δ) (r : Session.Rec) :
+    Gen.Py.handle_tls_client_hello r.body =
+      { can_decrypt := (Session.clientHello s r).canDecrypt, server_cipher_change := (Session.clientHello s r).srvCC,
+        client_cipher_change := (Session.clientHello s r).cliCC,
+        handshake_13_buffer := ((Session.clientHello s r).hsBufC, (Session.clientHello s r).hsBufS),
+        client_random := (Session.clientHello s r).cr, client_hello_seen := (Session.clientHello s r).chSeen } := rfl
+
+example : (Gen.Py.handle_tls_client_hello ((List.range 40).map UInt8.ofNat)).client_random =
+    some ((List.range' 6 32).map UInt8.ofNat) := by decide
+
+/-- the version choice at the end of `handle_tls_server_hello` is the model's `chooseVersion` on the two version
+    numbers the code reads -/
+theorem server_hello_version_eq_model {δ : Type} (s : Session.St δ) (is13 : Bool) (recVer binary : Bytes) :
+    Gen.Py.server_hello_version is13 recVer binary s.ver s.canDecrypt =
+      { tls_version := (Session.chooseVersion s (Bytes.beNat recVer) (Bytes.beNat (Bytes.slice binary 4 6)) is13).ver,
+        can_decrypt := (Session.chooseVersion s (Bytes.beNat recVer) (Bytes.beNat (Bytes.slice binary 4 6)) is13).canDecrypt } := by
+  unfold Gen.Py.server_hello_version Session.chooseVersion
+  simp only [decide_eq_true_eq]
+  repeat' split
+  all_goals simp_all
+
+example : Gen.Py.server_hello_version true [3, 3] [2, 0, 0, 40, 3, 3] none true = { tls_version := some .tls13, can_decrypt := true } ∧
+    Gen.Py.server_hello_version false [3, 1] [2, 0, 0, 40, 3, 9] (some .tls12) true = { tls_version := some .tls12, can_decrypt := false } := by
+  decide
 
 end TLX.Props.Translated
